@@ -337,6 +337,56 @@ def run(ctx: Ctx) -> None:
                        msg=f"the {ttype} token is consumed as the flag `{flag}` and re-created inside the value by `{short(c, 60)}`, and `{flag}` is still passed on in `{short(leaked.stmt, 60) if leaked is not None else ''}`: the token is reported twice (as a value token and as the flag)",
                        node=n.stmt, mod=mod)
 
+    # ---------------------------------------------------------------- R14.9
+    # "no token dropped": a token list a collector handed back for a value position goes on -- into a Value, back to the
+    # stream, to the caller -- on every path that completes.  Only looking at it (its length, a comparison, a test) is not
+    # going on, and a conditional expression that passes it on in one arm only drops it in the other
+    # (`Value(toks) if len(toks) > 2 else None` reports `int x{};` without its initializer).
+    ctx.rule("R14.9", "a collected token list is passed on (Value, push-back, return) on every completing path, not only inspected", minimum=5)
+    _COLLECT = {("self", "_consume_balanced_tokens"), ("self", "_consume_value_until"), ("self", "_consume_until")}
+    _SKIPPERS = {"_consume_gcc_attribute", "_consume_declspec", "_consume_attribute_specifier_seq", "_consume_static_assert", "_consume_attribute", "_discard_ctor_initializer"}
+
+    def _placing(node: Node, var: str, m=mod) -> bool:
+        if node.kind == "test":
+            return False
+        for e_ in node.exprs():
+            for x in ast.walk(e_):
+                if not (isinstance(x, ast.Name) and x.id == var and isinstance(x.ctx, ast.Load)):
+                    continue
+                cur, inspect_only, one_arm = x, False, False
+                while cur is not None and cur is not e_:
+                    par = m.parent.get(cur)
+                    if isinstance(par, ast.Call) and isinstance(par.func, ast.Name) and par.func.id in ("len", "bool", "any", "all") and cur in par.args:
+                        inspect_only = True
+                    if isinstance(par, ast.Compare):
+                        inspect_only = True
+                    if isinstance(par, ast.IfExp):
+                        if cur is par.test:
+                            inspect_only = True
+                        else:
+                            other = par.orelse if cur is par.body else par.body
+                            if not any(isinstance(y, ast.Name) and y.id == var for y in ast.walk(other)):
+                                one_arm = True
+                    cur = par
+                if not inspect_only and not one_arm:
+                    return True
+        return False
+
+    for fname in sorted(pm.methods):
+        if fname in _SKIPPERS:
+            continue
+        cfg = pm.cfg(fname)
+        for n in cfg.nodes:
+            if not (n.kind == "stmt" and isinstance(n.stmt, ast.Assign) and len(n.stmt.targets) == 1 and isinstance(n.stmt.targets[0], ast.Name) and isinstance(n.stmt.value, ast.Call)):
+                continue
+            if pm.resolve(fname, n.stmt.value) not in _COLLECT:
+                continue
+            var = n.stmt.targets[0].id
+            redefs = {m_.id for m_ in cfg.nodes if m_ is not n and m_.kind == "stmt" and isinstance(m_.stmt, ast.Assign) and any(isinstance(t, ast.Name) and t.id == var for t in m_.stmt.targets)}
+            leak = cfg.paths_avoiding(n, cfg.exit, lambda k, v=var: _placing(k, v) or k.id in redefs)
+            ctx.ob("R14.9", f"parser:CxxParser.{fname}|`{short(n.stmt, 60)}`", not leak,
+                   msg=f"the tokens collected into `{var}` can reach the end of {fname} having only been inspected (or passed on in one arm of a conditional expression): the value position is reported without the source tokens of its expression", node=n.stmt, mod=mod)
+
     # ---------------------------------------------------------------- R14.6
     # pragma contents end at the line end: a discarded token that swallows its newline must
     # end the directive, or the next declaration's tokens become part of the pragma's Value
